@@ -106,3 +106,70 @@ def order_other(self, op, a, b, st, spec, node):
 
 
 Engine.order_other = order_other
+
+
+# ---- pyannote.core.Annotation / Timeline as the sequence of their (segment, track, label) triples / segments (trusted base of C18 X5):
+#      annotation.itertracks(yield_label=True) yields exactly the triples of the annotation, each once; `for segment in timeline` its segments.
+TRUSTED_ANNOT = ("model:pyannote Annotation = the list of its (segment, track, label) triples; itertracks(yield_label=True) yields them, each once "
+                 "(the parser that built it - load_rttm - is outside the model)")
+
+
+def annot_iter(self, node, st):
+    import ast as _ast
+    if not (isinstance(node, _ast.Call) and isinstance(node.func, _ast.Attribute) and node.func.attr == "itertracks"):
+        return NotImplemented
+    kw = {k.arg: k.value for k in node.keywords}
+    if node.args or set(kw) != {"yield_label"} or not (isinstance(kw["yield_label"], _ast.Constant) and kw["yield_label"].value is True):
+        raise EngineError("itertracks outside the modelled form (yield_label=True)")
+    v = self.ev(node.func.value, st, False)
+    if not isinstance(v, V.SList):
+        return NotImplemented
+    self.used_models.add(TRUSTED_ANNOT)
+    return self.iter_value(v, st, node)
+
+
+Engine.ITER_MODELS.append(annot_iter)
+
+
+TRUSTED_RTTM = ("model:pyannote.database.util.load_rttm(path) = some dict uri -> Annotation, seen as the list of its (uri, annotation) items; "
+                "the RTTM parser itself is outside the model")
+
+
+def load_rttm_model(self, e, st, spec):
+    import ast as _ast
+    if _ast.unparse(e.func) == "load_rttm" and len(e.args) == 1 and not spec:
+        arg = e.args[0]
+        if isinstance(arg, _ast.Call) and _ast.unparse(arg.func) == "str" and len(arg.args) == 1:
+            arg = arg.args[0]          # str(path): the path as text
+        self.ev(arg, st, spec)
+        self.used_models.add(TRUSTED_RTTM)
+        from ..contract import ListOf, TupleOf, OptT, RealT
+        from ..vals import SList, Lifted
+        seg = Rec("Segment", {"start": V.fresh("s", V.R), "end": V.fresh("e", V.R)})
+        track = V.Tup([seg, V.fresh("trk", V.R), Opt(V.fresh("nolab", V.B), V.fresh("lab", V.R))])
+        tracks = SList(V.fresh("ntracks", V.I), Lifted.fresh(track, "tracks"))
+        item = V.Tup([V.fresh("uri", V.R), tracks])
+        files = SList(V.fresh("nfiles", V.I), Lifted.fresh(item, "rttm"))
+        st.assume(files.length >= 0)
+        i = V.fresh("i", V.I)
+        st.assume(z3.ForAll(i, files.get(i).items[1].length >= 0))
+        return files
+    if isinstance(e.func, _ast.Attribute) and e.func.attr == "str" and False:
+        return NotImplemented
+    return NotImplemented
+
+
+Engine.MODELS.append(load_rttm_model)
+
+
+def items_of_pairs(self, node, st):
+    import ast as _ast
+    if isinstance(node, _ast.Call) and isinstance(node.func, _ast.Attribute) and node.func.attr == "items" and not node.args \
+            and isinstance(node.func.value, _ast.Name):
+        v = st.env.get(node.func.value.id)
+        if isinstance(v, V.SList) and isinstance(v.elems.template, V.Tup) and len(v.elems.template.items) == 2:
+            return self.iter_value(v, st, node)
+    return NotImplemented
+
+
+Engine.ITER_MODELS.append(items_of_pairs)
